@@ -203,7 +203,82 @@ def run(repo, rep):
     rep.check(len(asg_) == 1 and norm(asg_[0].value) == f"{v}.ofm_box.end_coord", "C03-e", site_g, "the present box ends where the producer stripe's OFM box ends", norm(asg_[0].value) if asg_ else "")
     req = [n_ for n_ in ast.walk(gfn) if isinstance(n_, ast.If) and norm(n_.test) == "not ifm_required.is_subbox_of(ifm_present)"]
     rep.check(len(req) == 1 and any(isinstance(x, ast.For) for x in req[0].body), "C03-e", site_g, "producer stripes are pulled until the required IFM box is inside the present box", "")
-    rep.floor("C03-e", 9)
+    # rows a cascade consumer's IFM box claims (command generator: n * stride + top skirt + bottom skirt, before clipping) vs rows the
+    # scheduler reserves for that stripe (get_ifm_area_required: (n - 1) * stride + kernel) - derived from the four source expressions
+    from ..exprnorm import poly
+
+    aa_ = repo.mod("architecture_allocator")
+    rs_ = aa_.func("_required_size")
+    ret_ = [r_ for r_ in ast.walk(rs_) if isinstance(r_, ast.Return)][0].value
+    num = [x for x in ast.walk(ret_) if isinstance(x, ast.BinOp) and isinstance(x.op, (ast.Div, ast.FloorDiv))]
+    if not num:
+        raise AnalysisError("_required_size: quotient by upscale not found")
+    area = poly(num[0].left)
+    area = {k: v for k, v in area.items() if "nearest" not in k}  # nearest = 0 without upscaling
+    # the border actually passed for the height by get_ifm_area_required (kernel extent, possibly plus a safety margin)
+    gia = aa_.func("get_ifm_area_required")
+    hc = [x.value for x in ast.walk(gia) if isinstance(x, ast.Assign) and str(norm(x.targets[0])) == "h1" and isinstance(x.value, ast.Call) and call_name(x.value) == "_required_size"]
+    if len(hc) != 1 or len(hc[0].args) < 3:
+        raise AnalysisError("get_ifm_area_required: height call of _required_size not recognised")
+    rep.check(norm(hc[0].args[1]) == "kernel.stride.y", "C03-e", "ethosu/vela/architecture_allocator.py:get_ifm_area_required", "the rows needed for a stripe are computed with the vertical stride",
+              f"stride argument is `{norm(hc[0].args[1])}`: for a consumer with stride.y > stride.x the rolling buffer gets too few rows")
+    ren = {"kernel.area_height()": "filter_size", "kernel.stride.y": "stride"}
+    border = {tuple(sorted(ren.get(a_, a_) for a_ in k_)): c_ for k_, c_ in poly(hc[0].args[2]).items()}
+    area2 = {}
+    for k_, c_ in area.items():
+        if "border" in k_:
+            rest = tuple(a_ for a_ in k_ if a_ != "border")
+            for kb, cb in border.items():
+                kk = tuple(sorted(rest + kb))
+                area2[kk] = area2.get(kk, 0) + c_ * cb
+        else:
+            area2[k_] = area2.get(k_, 0) + c_
+    area = {k_: c_ for k_, c_ in area2.items() if c_}
+    hs_ = repo.mod("high_level_command_stream").func("Box.transform_with_strides_and_skirt")
+    st_txt = [str(norm(x.value)) for x in ast.walk(hs_) if isinstance(x, ast.Assign) and str(norm(x.targets[0])) == "new_start_coord[-3]"]
+    en_txt = [str(norm(x.value)) for x in ast.walk(hs_) if isinstance(x, ast.Assign) and str(norm(x.targets[0])) == "new_end_coord[-3]"]
+    if not any(t.startswith("new_start_coord[-3] * stride - skirt[0]") for t in st_txt) or not any(t.startswith("new_end_coord[-3] * stride + skirt[2]") for t in en_txt):
+        raise AnalysisError("transform_with_strides_and_skirt: row formulas not recognised")
+    cps = repo.mod("tflite_graph_optimiser").func("calc_padding_and_skirt")
+    sk = [x.value for x in ast.walk(cps) if isinstance(x, ast.Assign) and str(norm(x.targets[0])) == "skirt" and isinstance(x.value, ast.Tuple) and len(x.value.elts) == 4]
+    if len(sk) != 1:
+        raise AnalysisError("calc_padding_and_skirt: skirt tuple not found")
+    pad_total = poly(ast.BinOp(left=sk[0].elts[0], op=ast.Add(), right=sk[0].elts[2]))
+    if pad_total != {("ypad",): 1}:
+        raise AnalysisError(f"skirt top + bottom is not ypad: {pad_total}")
+    ntp = repo.mod("graph_optimiser_util").func("needed_total_padding")
+    rets = sorted((r_ for r_ in ast.walk(ntp) if isinstance(r_, ast.Return)), key=lambda r_: r_.lineno)
+    worst = None
+    for r_ in rets:
+        v = r_.value
+        inner = v.args[0] if isinstance(v, ast.Call) and call_name(v) == "max" and len(v.args) == 2 else v
+        yp = poly(inner)
+        # box(n) - area(n) with value = n, border = filter_size
+        diff = {("n", "stride"): 1}
+        for k_, c_ in yp.items():
+            diff[k_] = diff.get(k_, 0) + c_
+        for k_, c_ in area.items():
+            kk = tuple(sorted({"value": "n", "border": "filter_size"}.get(a_, a_) for a_ in k_))
+            diff[kk] = diff.get(kk, 0) - c_
+        diff = {k_: c_ for k_, c_ in diff.items() if c_}
+        # input_size % stride lies in [0, stride - 1]: a difference of the form -(input_size % stride) - c (c >= 0) is never positive
+        atoms = {a_ for k_ in diff for a_ in k_}
+        if not atoms <= {"stride", "input_size % stride"}:
+            raise AnalysisError(f"row difference depends on {sorted(atoms)}: not decidable over the stride / remainder domain")
+        divisible = "%" not in str(norm(r_.value))  # the branch taken when input_size % stride == 0
+        nonpos = True
+        for S_ in (1, 2, 3, 4, 5, 8):
+            for m_ in ([0] if divisible else range(1, S_)):
+                val = sum(c_ * (S_ if "stride" in k_ else 1) ** k_.count("stride") * (m_ if "input_size % stride" in k_ else 1) for k_, c_ in diff.items())
+                if val > 0:
+                    nonpos = False
+        if diff and not nonpos and worst is None:
+            worst = (str(norm(r_.value)), diff)
+    rep.check(worst is None, "C03-e", "ethosu/vela/architecture_allocator.py:get_ifm_area_required / high_level_command_stream.py:Box.transform_with_strides_and_skirt",
+              "the IFM rows a consumer stripe waits for (n * stride + total vertical padding) never exceed the rows reserved for it in the rolling buffer ((n - 1) * stride + kernel)",
+              (f"with total padding `{worst[0]}` the box is {' + '.join(('-' if c_ < 0 else '') + '*'.join(k_) for k_, c_ in sorted(worst[1].items()))} rows larger (1 .. stride - 1 rows when the IFM height is no multiple of the stride): "
+               "the consumer waits until the producer has wrapped around and overwritten rows it has not read yet") if worst else "")
+    rep.floor("C03-e", 10)
 
     # ---------------------------------------------------------------- f
     lut = repo.mod("lut").func("optimize_high_level_cmd_stream")
@@ -227,6 +302,10 @@ def run(repo, rep):
         ok = len(prot) == 1 and len(loop) == 1 and c2.dominates(prot[0].id, loop[0].id) and not c2.reaches(loop[0].id, prot[0].id)
         rep.check(ok, "C03-f", f"ethosu/vela/extract_npu_subgraphs.py:{fn}", "write protection for multi-consumer inputs is decided before the consumers are moved to the clone",
                   "the consumer count is taken after rewiring: an input still read elsewhere can be overwritten in place")
+        if fn == "rewrite_tensor_cpu_producer_npu_consumers" and prot:
+            extra = [str(norm(x)) for x in conjuncts(prot[0].expr) if "len(orig_tens.consumers()) > 1" not in str(norm(x))]
+            rep.check(not extra, "C03-f", f"ethosu/vela/extract_npu_subgraphs.py:{fn}", "every tensor with a consumer outside this NPU subgraph is write protected (the consumer count alone decides)",
+                      f"protection is additionally restricted by {extra}: a CPU-produced tensor that feeds this NPU subgraph and a later consumer is overwritten in place by an elementwise result")
         outp = [n_ for n_ in c2.nodes[3:] if n_.kind == "test" and "orig_tens in" in norm(n_.expr) and "output_tensors" in norm(n_.expr)]
         rep.check(len(outp) == 1 and any(isinstance(s, ast.Assign) and norm(s) == "new_tens.ifm_write_protected = True" for s in outp[0].stmt.body), "C03-f",
                   f"ethosu/vela/extract_npu_subgraphs.py:{fn}", "subgraph outputs are write protected", "")
